@@ -23,6 +23,8 @@ class C06(ConcBase):
     exhaustive_note = {"quick": "all schedules of length 18 with <= 2 context switches, 2 threads, 18 (tree, program pair) combinations",
                        "thorough": "all schedules of length 24 with <= 3 context switches, 2 threads, 90 (tree, program pair) combinations"}
 
+    miri_programs = ["clone_drop", "traverse"]
+
     def cases(self, tier, seed):
         return self.gen(tier, seed, PROGS, 6)
 
@@ -34,6 +36,8 @@ class C06(ConcBase):
         return None
 
     def spec_raw(self, case, raw):
+        if case.startswith("M "):
+            return None if raw == "ok" else "Miri on program `%s`: %s" % (case.split(" ")[1], raw)
         return CR.check_c06(case, raw)
 
     def nontrivial(self, case, impl):
